@@ -352,8 +352,8 @@ def run_check(pid, tier, seed):
             path = os.path.join(d, '%s-%s.json' % (ob.name, h))
             with open(path, 'w') as f:
                 json.dump({'property': pid, 'obligation': ob.name, 'label': v['label'],
-                           'witness': to_json(v['w']), 'choices': to_json(v.get('choices'))}, f, indent=1,
-                          sort_keys=True)
+                           'witness': to_json(v['w']), 'choices': to_json(v.get('choices'))}, f, indent=1)
+                # (no sort_keys: the insertion order of dicts inside a witness can be what matters)
             files.append((v, path))
         results_r = replay_files([p for _, p in files]) if files else []
         shown = {}
